@@ -201,8 +201,15 @@ def balanced_cuts(r, lines, k):
     i = 1
     starts = sorted(r.sample(range(1, max(2, n - 1)), min(k, max(0, n - 2))))
     pos = 0
+    # blocks in which the ORDER of keywords is constrained by a listed finding (QUERYMAP STYLE <word> must stay last, IMAGEMODE FEATURE
+    # must not become the first keyword of a nested OUTPUTFORMAT): a directive or a cut there would re-create the finding
+    avoid = set(NO_DIRECTIVE_PARENTS)
+    if "querymap-style-keyword" in GATED:
+        avoid.add("QUERYMAP")
+    if "first-keyword-value-is-block-word" in GATED:
+        avoid.add("OUTPUTFORMAT")
     for st in starts:
-        if st < pos or st < 1 or parents[st] is None or parents[st] in NO_DIRECTIVE_PARENTS:
+        if st < pos or st < 1 or parents[st] is None or parents[st] in avoid:
             continue
         # extend to a balanced range that stays inside the same parent block
         ends = [e for e in range(st, min(n - 1, st + 12) + 1) if balanced(lines[st:e])]
@@ -316,6 +323,23 @@ def _run(ctx, base):
         inner = File("__inner__", 0)
         tg.build(inner, lines[1:-1], D, True)
         root.entries = [lines[0]] + inner.entries + [lines[-1]]
+        if j % 3 == 1:
+            # placeholder files: zero bytes, a lone line end, a lone comment, or nothing but the INCLUDE of another placeholder
+            kind = r.choice(["zero-bytes", "zero-bytes", "newline-only", "comment-only", "includes-a-zero-byte-file"])
+            ph = tg.newfile(1)
+            ph.trailing_newline = kind == "newline-only"
+            if kind == "comment-only":
+                ph.entries = ["# placeholder"]
+            elif kind == "includes-a-zero-byte-file":
+                ph2 = tg.newfile(2)
+                ph2.trailing_newline = False
+                ph.trailing_newline = False
+                ph.entries = [Inc(ph2, rand_style(r))]
+            inc = Inc(ph, rand_style(r))
+            inc.range_balanced = True
+            root.entries.insert(r.randint(1, len(root.entries) - 1), inc)
+            res.count("trees_with_placeholder_files")
+            res.seen("placeholder-kinds", kind)
         root.eol = r.choice(["\n", "\r\n"])
         rootdir = os.path.join(base, f"t{ctx.shard}_{j}", r.choice(["", "maps", "a/b"]))
         os.makedirs(rootdir, exist_ok=True)
